@@ -110,7 +110,11 @@ where
         should_continue: impl std::ops::Fn() -> bool + Clone,
     ) -> V {
         debug!("solve_root_goal(canonical_goal={:?})", canonical_goal);
-        assert!(self.stack.is_empty());
+        // The stack and the search graph only hold in-progress state. If an earlier
+        // root solve was unwound by a panic in a callback, it left that state behind;
+        // discard it so that this solve starts from a clean slate.
+        self.stack.clear();
+        self.search_graph.clear();
         let minimums = &mut Minimums::new();
         self.solve_goal(canonical_goal, minimums, solver_stuff, should_continue)
     }
